@@ -507,7 +507,7 @@ static void put_cfg(Out& out, const char* op, MODULE* mod, const char* shape) {
 }
 
 STREAM(md_model) {
-  std::vector<uint64_t> dims = thorough ? std::vector<uint64_t>{2, 4, 8, 16, 32, 64, 128, 256, 1024, 4096} : std::vector<uint64_t>{2, 4, 8, 16, 32, 64, 256};
+  std::vector<uint64_t> dims = thorough ? std::vector<uint64_t>{2, 4, 8, 16, 32, 64, 128, 256, 1024, 4096, 8192} : std::vector<uint64_t>{2, 4, 8, 16, 32, 64, 256};
   for (uint64_t n : dims)
     for (int mask = 0; mask < 2; mask++) {
       MODULE* mod = get_module(n, 0, mask);
